@@ -241,7 +241,7 @@ def gen_smb1(rng, fault=None):
     kind = rng.below(2)
     flags = 0x18
     if fault == 'replyflag':
-        flags = 0x98
+        flags = rng.choice([0x98, 0x98, 0x80, 0x84, 0x9c, 0xff, 0x80 | rng.below(128)])
     cmd = 0x72 if kind == 0 else 0x73
     if fault == 'command':
         cmd = rng.choice([0x71, 0x74, 0x75, 0x25, 0, 255])
@@ -285,7 +285,7 @@ def gen_smb2(rng, fault=None):
     kind = rng.below(2)
     flags = 0
     if fault == 'replyflag':
-        flags = 1
+        flags = rng.choice([1, 1, 0x11, 0x31, 0x71, 0x80000001, 0x9, 1 | (rng.u32() & 0xfffffffe)])
     cmd = kind
     if fault == 'command':
         cmd = rng.choice([2, 3, 5, 0x10, 0xffff])
@@ -386,7 +386,15 @@ class World:
         # second handled address of each family (an ND-NS may be sent to one address and solicit another)
         self.my4b = rng.choice([ip4('10.0.0.2'), rng.bytes(4)])
         self.my6b = rng.choice([ip6('2001:db8::2'), rng.bytes(16)])
+        if rng.chance(1, 6):
+            # IPv4-mapped twins: the IPv6 endpoints are the IPv4 ones in ::ffff:a.b.c.d form
+            self.cl6 = bytes(10) + b'\xff\xff' + self.cl4
+            self.my6 = bytes(10) + b'\xff\xff' + self.my4
         self.self = [self.my4, self.my6, self.my4b, self.my6b] if selfmode else None
+        if selfmode and rng.chance(1, 3):
+            # other shapes of the self-IP list: one address per family, a single family, three of one family
+            self.self = rng.choice([[self.my4, self.my6], [self.my4], [self.my6], [self.my4, self.my6, self.my6b],
+                                    [self.my4, self.my4b, self.my6], [self.my4, self.my6, self.my4b, self.my6b, rng.bytes(16), rng.bytes(4)]])
         self.deny = [self.bad4, self.bad6] if denymode else None
         self.key = key if key is not None else rng.choice([(0, 0), (0, 0), (rng.next(), rng.next())])
         self.logger = logger
@@ -408,21 +416,24 @@ class World:
     def fip(self, v6, proto, l4, **kw):
         return self.f6(proto, l4, **kw) if v6 else self.f4(proto, l4, **kw)
 
-    def addrs(self, v6):
+    def addrs(self, v6, second=False):
+        """(client, contacted address); second=True: the second handled address of the family"""
+        if second:
+            return (self.cl6, self.my6b) if v6 else (self.cl4, self.my4b)
         return (self.cl6, self.my6) if v6 else (self.cl4, self.my4)
 
-    def tcp_frame(self, v6, sport, dport, seq, ack, flags, pl=b'', **kw):
-        s, d = self.addrs(v6)
-        return self.fip(v6, 6, tcp(sport, dport, seq, ack, flags, pl, src=s, dst=d, **kw))
+    def tcp_frame(self, v6, sport, dport, seq, ack, flags, pl=b'', second=False, **kw):
+        s, d = self.addrs(v6, second)
+        return self.fip(v6, 6, tcp(sport, dport, seq, ack, flags, pl, src=s, dst=d, **kw), dst=d)
 
-    def udp_frame(self, v6, sport, dport, pl):
-        s, d = self.addrs(v6)
-        return self.fip(v6, 17, udp(sport, dport, pl, src=s, dst=d))
+    def udp_frame(self, v6, sport, dport, pl, second=False):
+        s, d = self.addrs(v6, second)
+        return self.fip(v6, 17, udp(sport, dport, pl, src=s, dst=d), dst=d)
 
-    def data_frame(self, v6, sport, dport, seq, pl, flags=0x18, ackdelta=1):
-        s, d = self.addrs(v6)
+    def data_frame(self, v6, sport, dport, seq, pl, flags=0x18, ackdelta=1, second=False):
+        s, d = self.addrs(v6, second)
         ck = self.cookie(s, d, sport, dport)
-        return self.tcp_frame(v6, sport, dport, seq, (ck + ackdelta) & 0xffffffff, flags, pl)
+        return self.tcp_frame(v6, sport, dport, seq, (ck + ackdelta) & 0xffffffff, flags, pl, second=second)
 
 
 def near_miss(rng, mac):
